@@ -166,7 +166,16 @@ func HarnessC02Inject() {
 		noBody = svPick("file-only", 2) == 1
 	}
 	val := svBytes("v", n)
-	hxC02Check(which, val, menc, multipart, noBody, n <= svParam("rtmax", 2))
+	// the symbolic bytes may sit inside a value that already looks encoded or
+	// quoted (structure checks only: what such text should decode to is debatable)
+	ctx := svPick("context", svParam("ctxs", 1))
+	switch ctx {
+	case 1:
+		val = append(append([]byte("=?UTF-8?q?Quarterly?="), val...), "=?UTF-8?q?report?="...)
+	case 2:
+		val = append(append([]byte("\"quoted "), val...), " text\" tail"...)
+	}
+	hxC02Check(which, val, menc, multipart, noBody, ctx == 0 && n <= svParam("rtmax", 2))
 }
 
 var hxC02Runs = []int{2, 75, 76, 200, 1, 3, 60, 74, 77, 80}
